@@ -78,6 +78,57 @@ def run_timed(cfg_a, cfg_p, script, horizon_ms, seed=0, only=None, silent_after_
                          'real': list(ends), 'cooperative': False})
 
 
+def run_slow_negotiation(victim, ka, idle, delay_ch_ms, delay_init_ms, after_ms, peer_ka=None):
+    ''' One endpoint whose peer takes its time: its contact header comes ``delay_ch_ms`` after the endpoint
+    started, its SESS_INIT ``delay_init_ms`` after that (both possibly longer than the keepalive interval and
+    the idle time), then the session lasts ``after_ms`` more with a silent peer.  Timers that are due fire. '''
+    cfg_v = EndCfg('dtn://solo/', keepalive=ka, idle=idle)
+    cfg_o = EndCfg('dtn://slow/', keepalive=ka if peer_ka is None else peer_ka)
+    world = World(cfg_v if victim == 'A' else cfg_o, cfg_v if victim == 'P' else cfg_o, only=victim, auto_deliver=False)
+    peer = world.peer(victim)
+
+    def feed(octets):
+        try:
+            world.sock[peer].send(octets)
+        except OSError:
+            return
+        world.sock[peer].deliver()
+
+    def until(t_ms):
+        for _ in range(2000):
+            world.run_fair(timers=False)
+            nxt = _next_timer(world)
+            if nxt is None or nxt[0] > t_ms:
+                break
+            GLib.SCHED.advance_to(nxt[0])
+            world.step(nxt[1], nxt[2])
+        GLib.SCHED.advance_to(t_ms)
+    world.start(victim)
+    until(delay_ch_ms)
+    feed(codec.enc_contact(0))
+    until(delay_ch_ms + delay_init_ms)
+    feed(codec.enc_sess_init(keepalive=cfg_o.keepalive, seg_mru=1000, xfer_mru=2 ** 40, node_id='dtn://slow/'))
+    until(delay_ch_ms + delay_init_ms + after_ms)
+    world.run_fair(timers=False)
+    world.query(victim)
+    return world.finish({'kind': 'timers1', 'flush': True, 'quiesced': True, 'real': [victim], 'cooperative': False})
+
+
+def slow_negotiation_executions(tier, seed):
+    rnd = random.Random(seed * 17 + 5)
+    traces, metas = [], []
+    rows = [(v, ka, idle, dch, dinit) for v in ('A', 'P') for (ka, idle) in ((2, 0), (1, 0), (5, 3), (0, 2), (30, 0), (3, 20))
+            for (dch, dinit) in ((0, 0), (3000, 0), (0, 3000), (2500, 7000), (12000, 100))]
+    if tier == 'quick':
+        rows = rnd.sample(rows, 24)
+    for (v, ka, idle, dch, dinit) in rows:
+        after = 2500 * max(1, min(ka, 4))
+        traces.append(run_slow_negotiation(v, ka, idle, dch, dinit, after, peer_ka=rnd.choice([None, 0, 7])))
+        metas.append({'kind': 'slow-negotiation', 'source': 'slow-negotiation', 'victim': v, 'keepalive': ka, 'idle': idle,
+                      'contact_header_after_ms': dch, 'sess_init_after_ms': dinit, 'then_ms': after})
+    return traces, metas
+
+
 def run_adaptive(seed, mru, init, nbytes, tick_choices=(1, 5, 20, 80), nbundles=1, sender_burst=0):
     ''' Adaptive segment sizing: virtual time passes between callbacks so that ACK latencies differ.
     nbundles / sender_burst: several bundles are queued and the sender runs that many queue / pump callbacks
@@ -151,6 +202,9 @@ def executions(tier, seed):
                                         seed=seed, only=only, prelude=prelude))
                 metas.append({'kind': 'silent-peer', 'victim': only, 'keepalive': ka, 'idle': idle,
                               'horizon_ms': horizon, 'outstanding': vname})
+    (str_, sme) = slow_negotiation_executions(tier, seed)
+    traces += str_
+    metas += sme
     nad = 12 if tier == 'quick' else 200
     for i in range(nad):
         mru = rnd.choice([1, 500, 9000, 10240, 20000, 10 ** 6])
